@@ -74,7 +74,12 @@ def mk_tc(p, via="ctor"):
         fill(PusTc.empty(), {"apid": (p["apid"] + 5) % 2048, "seq": (p["seq"] + 5) % 16384, "source": (p["source"] + 5) % 65536,
                              "data": list(data) + [9, 9, 9], "service": (p["service"] + 5) % 256,
                              "subservice": (p["subservice"] + 5) % 256, "ack": (p["ack"] + 5) % 16}).pack()
-        return fill(PusTc.empty(), p)
+        t = fill(PusTc.empty(), p)
+        # ... and a later one is changed afterwards: the object under test must not follow
+        fill(PusTc.empty(), {"apid": (p["apid"] + 9) % 2048, "seq": (p["seq"] + 9) % 16384, "source": (p["source"] + 9) % 65536,
+                             "data": [7] + list(data), "service": (p["service"] + 9) % 256,
+                             "subservice": (p["subservice"] + 9) % 256, "ack": (p["ack"] + 9) % 16}).pack()
+        return t
     if via == "bytearray":        # the caller keeps its application data in a bytearray (e.g. a receive buffer)
         return PusTc(service=p["service"], subservice=p["subservice"], apid=p["apid"], app_data=bytearray(data),
                      seq_count=p["seq"], source_id=p["source"], ack_flags=p["ack"])
